@@ -196,6 +196,7 @@ func runSolver(ctx context.Context, bin string, args []string, file string, time
 	var out bytes.Buffer
 	cmd.Stdout = &out
 	cmd.Stderr = &out
+	cmd.WaitDelay = 2 * time.Second
 	err := cmd.Run()
 	if cctx.Err() == context.DeadlineExceeded {
 		return out.String(), fmt.Errorf("timeout")
@@ -220,7 +221,7 @@ func solveFunction(fc *FnCtx, cfg SolverCfg) {
 	}
 	dir := filepath.Join(cfg.WorkDir, sanitize(fc.name))
 	os.MkdirAll(dir, 0o755)
-	usesLambda := false
+	usesLambda := fc.q.hasLambda
 	for _, a := range fc.q.asserts {
 		if strings.Contains(a, "(lambda ") {
 			usesLambda = true
